@@ -75,6 +75,31 @@ Section BucketQuantile.
   Definition dflt : bucket := mkB None (zero o).
   Definition ubv (b : bucket) : V := match ub b with Some v => v | None => pinf end.
 
+  (* the rank's bucket by bisection, and the interpolation inside it; [m]: the sorted, merged,
+     monotone buckets *)
+  Definition bq_core (q : V) (m : list bucket) : V :=
+    let n := length m in
+    if Nat.ltb n 2 then nanv o
+    else
+      let observations := cnt (last m dflt) in
+      if eqb o observations (zero o) then nanv o
+      else
+        let rank := mul o q observations in
+        let b := bsearch (fun i => leb o rank (cnt (nth i m dflt))) n 0 (n - 1) in
+        if Nat.eqb b (n - 1) then ubv (nth (n - 2) m dflt)
+        else if Nat.eqb b 0 && (match ub (nth 0 m dflt) with Some u => leb o u (zero o) | None => false end)
+             then ubv (nth 0 m dflt)
+        else
+          let bend := ubv (nth b m dflt) in
+          let c := cnt (nth b m dflt) in
+          match b with
+          | O => add o (zero o) (mul o (sub o bend (zero o)) (div o rank c))
+          | S b' =>
+              let bstart := ubv (nth b' m dflt) in
+              let c0 := cnt (nth b' m dflt) in
+              add o bstart (mul o (sub o bend bstart) (div o (sub o rank c0) (sub o c c0)))
+          end.
+
   Definition bucket_quantile (q : V) (bs : list bucket) : V :=
     if isnan o q then nanv o
     else if ltb o q (zero o) then ninf
@@ -84,29 +109,7 @@ Section BucketQuantile.
       match ub (last s dflt), s with
       | _, [] => nanv o
       | Some _, _ => nanv o                       (* the highest bucket is not +Inf *)
-      | None, _ =>
-          let m := ensure_monotonic (coalesce s) in
-          let n := length m in
-          if Nat.ltb n 2 then nanv o
-          else
-            let observations := cnt (last m dflt) in
-            if eqb o observations (zero o) then nanv o
-            else
-              let rank := mul o q observations in
-              let b := bsearch (fun i => leb o rank (cnt (nth i m dflt))) n 0 (n - 1) in
-              if Nat.eqb b (n - 1) then ubv (nth (n - 2) m dflt)
-              else if Nat.eqb b 0 && (match ub (nth 0 m dflt) with Some u => leb o u (zero o) | None => false end)
-                   then ubv (nth 0 m dflt)
-              else
-                let bend := ubv (nth b m dflt) in
-                let c := cnt (nth b m dflt) in
-                match b with
-                | O => add o (zero o) (mul o (sub o bend (zero o)) (div o rank c))
-                | S b' =>
-                    let bstart := ubv (nth b' m dflt) in
-                    let c0 := cnt (nth b' m dflt) in
-                    add o bstart (mul o (sub o bend bstart) (div o (sub o rank c0) (sub o c c0)))
-                end
+      | None, _ => bq_core q (ensure_monotonic (coalesce s))
       end.
 
   (* ---- the operator ---------------------------------------------------------------------- *)
